@@ -246,6 +246,13 @@ QUICK = [_reg(Present("present_q", 2, 2, 3, [0, 1, 2])).name, _reg(PanSN("pansn_
 THOROUGH = [_reg(Present("T_present", 2, 3, 5, [0, 1, 2, 3])).name, _reg(PanSN("T_pansn", 8)).name, _reg(FileNaming("T_naming", 7, [ord(c) for c in "a.fs2"])).name]
 
 
+# archive level, through the real CLI create path (harness/cli_create.py)
+from harness import cli_create as _cc
+for _n in ['present_arc']:
+    INSTANCES[_n] = _cc.INSTANCES[_n]
+QUICK += ['present_arc']; THOROUGH += ['present_arc']
+
+
 def run(ctx):
     insts = [INSTANCES[n] for n in (QUICK if ctx["tier"] == "quick" else THOROUGH)]
     return run_instances("C19", "harness.C19", insts, ctx,
